@@ -249,6 +249,9 @@ func (s *Server) HandleDaemonConn(ctx context.Context, conn *Conn) (err error) {
 	s.logger.Printf("flags: %+v", flags)
 	osenv := &rsyncos.Env{Stderr: s.stderr}
 	pc := rsyncopts.NewContext(rsyncopts.NewOptionsWithGokrazyDefaults(osenv))
+	// The flags come from the network: --help and friends must not be able
+	// to terminate the daemon.
+	pc.Options.DisallowExit()
 	if err := pc.ParseArguments(osenv, flags); err != nil {
 		err = fmt.Errorf("parsing server args: %v", err)
 
@@ -328,6 +331,7 @@ func (s *Server) InternalHandleConn(ctx context.Context, conn *Conn, module *Mod
 func (s *Server) HandleConnArgs(ctx context.Context, conn *Conn, module *Module, args []string) error {
 	osenv := &rsyncos.Env{Stderr: s.stderr}
 	pc := rsyncopts.NewContext(rsyncopts.NewOptionsWithGokrazyDefaults(osenv))
+	pc.Options.DisallowExit()
 	if err := pc.ParseArguments(osenv, args); err != nil {
 		return fmt.Errorf("parsing server args: %v", err)
 	}
